@@ -75,7 +75,6 @@ CLAIMS["C04"] = dict(
     design_ref="DESIGN.md section 4 C04, section 9",
     note=TRUSTED + " Assumed contracts: sync.Mutex Lock/Unlock and atomic.Pointer Load/Store over ghost state; the callback given to Updates/View neither commits nor aborts the transaction.")
 CLAIMS["C05"] = dict(
-    category="other",
     technique="contract-based deductive verification of the sequential publication protocol only (schedules are outside contract reach)",
     text=("Reduced level, labelled as such: contracts do not quantify over schedules. Proved are the sequential facts the interleaving argument rests on: lock-then-load in "
           "txnWith (assert-at on the root load), store-under-lock and store-before-unlock in Commit, no publication in Abort, a single Load per read entry (getRoot), and (C03) that "
